@@ -35,6 +35,15 @@ func applyInc(args []Value) (Value, bool) {
 	return Int(args[0].I + 1), true
 }
 
+// applyFn applies one of the alphabet's two function values: S == "rest" is
+// (fn [& xs] xs), anything else is (fn [x] (+ x 1)).
+func applyFn(f Value, args []Value) (Value, bool) {
+	if f.S == "rest" {
+		return List(cp(args)...), true
+	}
+	return applyInc(args)
+}
+
 func allKeys(vs []Value) ([]Key, bool) {
 	out := make([]Key, len(vs))
 	for i, v := range vs {
@@ -377,7 +386,7 @@ func CollectionBuiltins() []BuiltinModel {
 			}
 			out := []Value{}
 			for _, e := range a[1].Elems {
-				r, ok := applyInc([]Value{e})
+				r, ok := applyFn(a[0], []Value{e})
 				if !ok {
 					return serr
 				}
@@ -394,7 +403,7 @@ func CollectionBuiltins() []BuiltinModel {
 				return serr
 			}
 			args := append(cp(a[1:len(a)-1]), last.Elems...)
-			r, ok := applyInc(args)
+			r, ok := applyFn(a[0], args)
 			if !ok {
 				return serr
 			}
@@ -595,7 +604,7 @@ func CollectionBuiltins() []BuiltinModel {
 			if !isFn(a[2]) {
 				return su
 			}
-			return assocIn(a[0], []Value{a[1]}, func(old Value) (Value, bool) { return applyInc([]Value{old}) })
+			return assocIn(a[0], []Value{a[1]}, func(old Value) (Value, bool) { return applyFn(a[2], []Value{old}) })
 		}},
 		{"update-in", []int{3}, func(a []Value) Spec {
 			if a[1].K != KVec {
@@ -607,7 +616,7 @@ func CollectionBuiltins() []BuiltinModel {
 			if !isFn(a[2]) {
 				return su
 			}
-			return assocIn(a[0], a[1].Elems, func(old Value) (Value, bool) { return applyInc([]Value{old}) })
+			return assocIn(a[0], a[1].Elems, func(old Value) (Value, bool) { return applyFn(a[2], []Value{old}) })
 		}},
 		{"set", []int{1}, func(a []Value) Spec {
 			switch a[0].K {
